@@ -133,6 +133,27 @@ func execForcedExpect(c *core.Case, fc *forcedCase) {
 			c.Sig("forced I4 %s outcome=stall", fc.Carrier)
 			return
 		}
+		// The serve loop is not parked in the hand-over.  If it answers a ping
+		// sent now, it has left handleOpen for this <open/> (one element at a
+		// time): whatever it did with the stream is done, and the only call
+		// left that could have been given it is this Accept.
+		if rep := <-openDone; rep != nil && rep.Attr("type") == "result" && rp.barrier() {
+			select {
+			case conn := <-ach:
+				if conn != nil {
+					// merely late
+					c.Count("forced_I4_stream_went_to_accept", 1)
+					rp.closeSID(sid)
+					c.Count("forced_scenarios", 1)
+					c.Sig("forced I4 %s outcome=ok", fc.Carrier)
+					return
+				}
+			case <-time.After(grace):
+			}
+			c.Violate("ibb:open:accepted-stream-lost", "I4: the Expect call the stream had been looked up for gave up before the hand-over; <open/> was answered with a result, the serve loop has gone on (it answers a ping), and the waiting Accept never got the stream")
+			c.Sig("forced I4 %s outcome=lost", fc.Carrier)
+			return
+		}
 		c.Inconclusive("I4: Accept did not get the stream and the stall rule does not apply")
 		return
 	}
